@@ -52,6 +52,14 @@ COMPOSITES = [
 TAMPER = ["tampered", None, 0, {"x": 1}, ["y"]]
 
 
+def _err_type(e) -> str:
+    """Cause of a failed parse: pydantic error type of the first error (stable across schemas and forms)."""
+    try:
+        return e.errors()[0]["type"]
+    except Exception:
+        return sl.exc_sig(e)
+
+
 def _loc_sig(e) -> str:
     try:
         errs = e.errors()
@@ -146,7 +154,7 @@ class Checker:
             with watchdog(10):
                 p = S.parse_raw(text)
         except Exception as e:
-            rec.check(False, f"c12:parse-own-output:{form}:{type(e).__name__}:{_loc_sig(e)}:{_leafs(S) if label.startswith('T:') else label}",
+            rec.check(False, f"c12:parse-own-output:{type(e).__name__}:{_err_type(e)}",
                       f"{label}.parse_raw({form} of a valid instance) must succeed; raised {type(e).__name__}: {sl.short(str(e), 160)}; text={sl.short(text, 120)!r}",
                       case=case, fns=FNS_PARSE)  # fmt: skip
             return
@@ -155,7 +163,7 @@ class Checker:
             eq = bool(p == o) and type(p) is type(o)
         except Exception:
             pass
-        if not rec.check(eq, f"c12:roundtrip-neq:{form}:{_leafs(S) if label.startswith('T:') else label}:{_diff_fields(o, p)}",
+        if not rec.check(eq, f"c12:roundtrip-neq:{_leafs(S) if label.startswith('T:') else label}:{_diff_fields(o, p)}",
                          f"{label}.parse_raw({form}) != original: {sl.short(repr(o), 140)} -> {sl.short(text, 100)!r} -> {sl.short(repr(p), 140)}",
                          case=case, fns=FNS_PARSE):  # fmt: skip
             return
@@ -167,7 +175,7 @@ class Checker:
         except Exception as e:
             ok = False
             p2 = e
-        rec.check(ok, f"c12:second-roundtrip:{form}:{_leafs(S) if label.startswith('T:') else label}",
+        rec.check(ok, f"c12:second-roundtrip:{_leafs(S) if label.startswith('T:') else label}",
                   f"second {form} round trip of {label} differs from the first: {sl.short(repr(p), 120)} vs {sl.short(repr(p2), 120)}",
                   case=case, fns=FNS_PARSE)  # fmt: skip
 
@@ -197,6 +205,15 @@ class Checker:
         if "json_dict" not in views:
             return
         jd = views["json_dict"]
+        # the input-side claim is only meaningful if the untampered output is readable at all
+        # (otherwise the round-trip check above has already reported the real cause)
+        try:
+            with watchdog(10):
+                base_ok = bool(S.parse_obj(dict(jd)) == o)
+        except Exception:
+            base_ok = False
+        if not base_ok:
+            return
         self._tamper_rot += 1
         for ki, (k, v) in enumerate(consts.items()):
             # installed plugins have the same few constants on thousands of instances: rotate the tamper values there
